@@ -146,7 +146,53 @@ func genInput2(o genOpts) (byte, []byte, string, string) {
 	kind := simrt.ChoiceBias("in.kind", 6, 0.35)
 	var b []byte
 	var marks ref.Marks
+	if simrt.Flip("in.long-or-large", 0.02) {
+		kind = 6 + ch("in.long-or-large-kind", 2)
+	}
 	switch kind {
+	case 6:
+		// a long, valid container of fixed-width elements (thousands of real elements)
+		fixed := []byte{ref.TBool, ref.TI8, ref.TI16, ref.TI32, ref.TI64, ref.TDouble}
+		et := fixed[ch("long.elem", len(fixed))]
+		n := []int{2049, 4097, 5000, 8193, 20000}[ch("long.count", 5)]
+		v := ref.Val{T: ref.TList, VT: et}
+		if ch("long.set", 2) == 1 {
+			v.T = ref.TSet
+		}
+		for i := 0; i < n; i++ {
+			x := ref.Val{T: et, I: int64(i*7 + 1)}
+			if et == ref.TBool {
+				x.I = int64(i % 2)
+			} else if et == ref.TI8 {
+				x.I = int64(int8(i))
+			} else if et == ref.TI16 {
+				x.I = int64(int16(i * 3))
+			} else if et == ref.TI32 {
+				x.I = int64(int32(i * 7))
+			}
+			v.Items = append(v.Items, x)
+		}
+		if ch("long.nested", 2) == 1 {
+			v = ref.Struct(ref.F(1, v), ref.F(2, ref.I32(5)))
+		}
+		t = v.T
+		b = ref.EncodeMarked(nil, v, &marks)
+		desc = fmt.Sprintf("%d fixed-width elements", n)
+	case 7:
+		// two (or three) large binaries of different content in one struct (each above 1 MiB)
+		v := ref.Val{T: ref.TStruct}
+		nb := 2 + ch("large.fields", 2)
+		for k := 0; k < nb; k++ {
+			sz := (1 << 20) + 1 + ch("large.extra", 3)*((1<<20)+17)
+			bs := make([]byte, sz)
+			for i := range bs {
+				bs[i] = byte(i*31 + k*7 + 1)
+			}
+			v.Fields = append(v.Fields, ref.Field{ID: int16(k + 1), V: ref.Bin(bs)})
+		}
+		t = ref.TStruct
+		b = ref.EncodeMarked(nil, v, &marks)
+		desc = fmt.Sprintf("%d large binaries", nb)
 	case 5:
 		// deep nesting: lists of lists of ... or structs in structs, a few to a few hundred levels
 		depth := []int{8, 63, 64, 65, 66, 100, 300}[ch("deep.levels", 7)]
